@@ -335,3 +335,75 @@ def python_divisions(fnode):
             protected |= {id(x) for b in t.body for x in ast.walk(b)}
     return [(n.lineno, ast.unparse(n)) for n in ast.walk(fnode)
             if isinstance(n, ast.BinOp) and isinstance(n.op, (ast.Div, ast.FloorDiv, ast.Mod)) and carries(n.right) and id(n) not in protected]
+
+
+def identity_compares(model, fnode, modname):
+    """`x is <value>` / `x is not <value>` where <value> is a string / number / tuple literal or a module-level name bound to one: [(lineno, text)].
+    Identity of equal strings or numbers depends on interning (literals in one code object are shared, a string built or read at run time is not)"""
+    import ast
+    consts = module_value_constants(model, modname)
+
+    def valueish(e):
+        if isinstance(e, ast.Constant):
+            return isinstance(e.value, (str, bytes, int, float, complex, tuple)) and not isinstance(e.value, bool)
+        if isinstance(e, (ast.Tuple, ast.List, ast.Dict, ast.Set, ast.JoinedStr)):
+            return True
+        if isinstance(e, ast.Name):
+            return e.id in consts
+        return False
+    out = []
+    for n in ast.walk(fnode):
+        if isinstance(n, ast.Compare):
+            left = n.left
+            for op, right in zip(n.ops, n.comparators):
+                if isinstance(op, (ast.Is, ast.IsNot)) and (valueish(left) or valueish(right)):
+                    out.append((n.lineno, ast.unparse(n)))
+                left = right
+    return out
+
+
+_MOD_CONSTS = {}
+
+
+def module_value_constants(model, modname):
+    """names that denote a str / number / tuple literal in the module: bound at module level, or imported from a package module that binds them so"""
+    import ast
+    key = (id(model), modname)
+    if key not in _MOD_CONSTS:
+        def lits(mod):
+            return {k: v.value for k, v in model.modassign.get(mod, {}).items()
+                    if isinstance(v, ast.Constant) and isinstance(v.value, (str, bytes, int, float, tuple)) and not isinstance(v.value, bool)}
+        names = dict(lits(modname))
+        for local, target in (model.imports.get(modname) or {}).items():
+            for _ in range(3):                  # through package re-exports
+                if not (isinstance(target, tuple) and len(target) == 2 and target[1]):
+                    break
+                m_, n_ = target
+                if n_ in lits(m_):
+                    names[local] = lits(m_)[n_]
+                    break
+                target = (model.imports.get(m_) or {}).get(n_)
+        _MOD_CONSTS[key] = names
+    return _MOD_CONSTS[key]
+
+
+def value_identity(rep, model, roots, rule='VALUE-IDENTITY'):
+    """no option or label is compared by object identity"""
+    import ast
+    rep.rule(rule, f'no function reachable from {" / ".join(roots)} compares a string, number or tuple value with `is` / `is not`: equal values given by a caller at run time '
+                   '(read from a file, built, unpickled in a pool worker) are not the identical object, so the branch taken would depend on where the value came from')
+    qs = reachable(model, roots)
+    n = 0
+    for q in sorted(qs):
+        fn = model.funcs[q]
+        n += 1
+        for ln, text in identity_compares(model, fn.node, fn.mod):
+            rep.violation(rule, f'{fn.name}:{text}', f'{fn.path}:{ln} {fn.name}', expected='comparison by value (== / != / in)',
+                          found=f'`{text}`: true only for the identical object (interned literal), false for an equal value built at run time', key=f'{rule}@{fn.mod}:{fn.name}:{text}')
+    ex = ast.parse("def f(c, d):\n    a = c is None\n    b = d is not True\n    return c is 'peak' or d is not ()\n").body[0]
+    got = identity_compares(model, ex, '-')
+    if [t for _, t in got] == ["c is 'peak'", 'd is not ()']:
+        rep.ok(rule, 'embedded example', 'sa/rules/common.py', found='fires on `is` against a string / tuple literal, silent on `is None` / `is not True`', nontrivial=False)
+    else:
+        rep.unresolved(rule, 'embedded example', 'sa/rules/common.py', f'the query no longer behaves as expected on the embedded example: {got}')
+    rep.ok(rule, 'reachable functions', '-', found=f'{n} functions reachable from {", ".join(roots)} scanned', nontrivial=True)
